@@ -214,6 +214,15 @@ def r2b(repo, run):
         for p in feas:
             rs = [e for e in p.events if e.kind == 'call' and e.attr == 'resolve' and e.recv is not None and e.recv.text == 'loader']
             co = [e for e in p.events if e.kind == 'call' and e.attr == 'construct_object' and e.recv is not None and e.recv.text == 'loader']
+            cs = [e for e in p.events if e.kind == 'call' and e.attr == 'construct_scalar' and e.recv is not None and e.recv.text == 'loader']
+            if not rs and len(cs) == 1 and p.status == 'return' and p.ret is not None and p.ret.text == cs[0].result.text and cs[0].args and cs[0].args[0].text == 'node':
+                # the scalar text is taken verbatim: what PyYAML does for an untagged scalar only when it is not plain
+                # (quoted and block scalars resolve to str); for a plain scalar the tag would turn numbers / booleans into strings
+                res.setdefault(style, set()).add((True, False) if style is not None else 'verbatim text for a plain scalar')
+                if style is not None:
+                    res[style].discard((True, False))
+                    res[style].add((False, True))
+                continue
             if len(rs) != 1 or len(rs[0].args) != 3:
                 raise AnalysisError('parse_scalar: loader.resolve(kind, value, implicit) not recognised')
             r = rs[0]
